@@ -466,7 +466,7 @@ def _conv_shapes(rng, maxn, fixed_m=None, fixed_n=None):
     if fixed_n is not None:
         n = list(fixed_n)
         if mode == "valid" and not (all(a >= b for a, b in zip(m, n))
-                                    or all(a <= b for a, b in zip(m, n))):
+                                    or all(a < b for a, b in zip(m, n))):
             mode = "full"
     elif mode == "full":
         n = _shape(rng, D, lim)
